@@ -668,7 +668,7 @@ theorem parseSps_encSps (p : SpsParams) (h : SpsWF p) :
   obtain ⟨hwd, hhd⟩ := dims_of_dimKey _ _ hk
   refine ⟨{ profile := st'.sps.profileIdc, level := st'.sps.levelIdc, width := widthOf true st'.sps,
             height := heightOf true st'.sps, sps := st'.sps }, ?_, ?_⟩
-  · simp only [parseSps, parseSpsWith, Variant.fixed, if_true, hst, hb, hg]
+  · simp only [parseSps, parseSpsWith, Variant.fixed, if_true, hst, hb, hg, recoverErr]
   · simp only [hwd, hhd]; exact dims_afterCrop p h
 
 end Lal.Sps
